@@ -55,7 +55,9 @@ def connLine (env : Url.Env) (mw up hs : String) (evs : List String) : Option St
   | some handler, some evs =>
     let cfg : Cfg := { mw := mw == "1", upload := up == "1", handler, env }
     let s := run cfg evs
-    some s!"ok {" ".intercalate (s.out.map showOut)} | h={s.hcalls} u={s.ucalls} m={s.mwcalls} content={toHex (if s.ucalls > 0 then s.content else [])} timer={s.timer} phase={repr s.phase}"
+    -- length of the output trace after every event: when (relative to the events) the response was written
+    let lens := (evs.foldl (fun (acc : St × List Nat) e => let t := step cfg acc.1 e; (t, t.out.length :: acc.2)) (({} : St), [])).2.reverse
+    some s!"ok {" ".intercalate (s.out.map showOut)} | h={s.hcalls} u={s.ucalls} m={s.mwcalls} content={toHex (if s.ucalls > 0 then s.content else [])} timer={s.timer} phase={repr s.phase} lens={",".intercalate (lens.map toString)}"
   | _, _ => some "bad-op"
 
 def handle : List String → Option String
